@@ -120,6 +120,7 @@ def main():
     ap.add_argument("--replay", default=None)
     ap.add_argument("--jobs", type=int, default=int(os.environ.get("VERIF_JOBS", "16")))
     ap.add_argument("--no-evidence", action="store_true")
+    ap.add_argument("--fail-fast", action="store_true", help="stop scheduling obligations after the first violation (sensitivity runs)")
     a = ap.parse_args()
     prop, tier = a.prop, a.tier
     if tier not in ("quick", "thorough"):
@@ -145,7 +146,11 @@ def main():
 
     scale = float(os.environ.get("VERIF_BUDGET_SCALE", "1"))
 
+    stop = {"flag": False}
+
     def job(o, shard):
+        if stop["flag"]:
+            return None
         budget = (o.thorough_budget if tier == "thorough" else o.budget) * scale
         hard = int(budget * 2.5 + 90)
         excludes = []
@@ -191,6 +196,8 @@ def main():
             known_hit.append({"finding": f["id"], "args": w["args"], "detail": w["detail"], "via": "witness replay"})
         if violation is None and wv is not None:
             violation = {"args": wv["args"], "detail": wv["detail"], "via": "witness replay"}
+        if violation is not None and a.fail_fast:
+            stop["flag"] = True
         return dict(obl=o, shard=shard, rounds=rounds, last=last, known_hit=known_hit, violation=violation,
                     disagreements=disagreements, wrep=wrep, funcs=funcs)
 
@@ -198,7 +205,8 @@ def main():
     with cf.ThreadPoolExecutor(max_workers=max(1, a.jobs)) as ex:
         futs = [ex.submit(job, o, s) for (o, s) in jobs]
         for f in cf.as_completed(futs):
-            results.append(f.result())
+            if f.result() is not None:
+                results.append(f.result())
 
     results.sort(key=lambda r: (r["obl"].id, -1 if r["shard"] is None else r["shard"]))
     n_obl = len(results)
@@ -286,7 +294,7 @@ def main():
     for inc in inconclusive:
         print("  INCONCLUSIVE %s shard=%s: %s" % (inc["obligation"], inc["shard"], inc["reason"]))
 
-    if not a.no_evidence and a.only is None:
+    if not a.no_evidence and a.only is None and not a.fail_fast:
         from vfw import plugin_meta
         ev = {
             "property_id": prop,
